@@ -45,6 +45,8 @@ def _step(w, op, a):
         return w.commit()
     if op == 'abort':
         return w.abort()
+    if op == 'other':
+        return w.other_commit(a)
     raise ValueError(op)
 
 
@@ -76,13 +78,16 @@ def _run(codes, args, storage):
     w.close()
 
 
-CODES = ['modify0', 'modify1', 'add', 'add_explicit', 'savepoint', 'rollback0', 'rollback1', 'rollback2', 'commit', 'abort']
+CODES = ['modify0', 'modify1', 'add', 'add_explicit', 'savepoint', 'rollback0', 'rollback1', 'rollback2', 'commit', 'abort',
+         'modify2', 'other0']
 
 
 def _decode(code, nsp):
     """-> (op, operand, new number of valid savepoints) or None if the code is not applicable."""
     if code.startswith('modify'):
         return 'modify', int(code[-1]), nsp
+    if code == 'other0':
+        return 'other', 0, nsp
     if code.startswith('rollback'):
         k = int(code[-1])
         if k >= nsp:
@@ -180,7 +185,7 @@ HARNESSES = [
             decides='after every step of any program over modify/add/savepoint/rollback(k)/commit/abort the connection shows exactly '
                     'the model state (snapshot per savepoint, un-added objects disowned), other connections see only committed '
                     'data, and nothing is left behind after commit/abort',
-            symbolic='n step codes over 10 (operation, operand) combinations: modify(0|1), add, add explicitly, savepoint, rollback(0|1|2), commit, abort',
+            symbolic='n step codes over 12 (operation, operand) combinations: modify(0|1|2), add, add explicitly, savepoint, rollback(0|1|2), commit, abort, another connection committing a conflicting change',
             bounds='program length n per shard (quick 3 and 4; thorough up to 6), starting from 2 committed objects',
             oracle='pure-Python savepoint model (zverif/progs.py)',
             code=['Connection.savepoint/_rollback_savepoint/_commit_savepoint/_abort_savepoint/_invalidate_creating', 'TmpStore.*',
